@@ -556,6 +556,12 @@ inductive Backend where
   | cur (writable : Bool) (s : Cur)
   | iterF (r : FallibleIter)
   | iterI (r : InfallibleIter)
+  /-- the same adapters around an iterator whose `size_hint` is legal but not exact
+      (`lo ≤ actual ≤ hi`, possibly no upper bound): not an `ExactSizeIterator`, so no
+      `BoundedReadWords`; `maybe_exhausted` is the trait default `true` (the code never looks
+      at `size_hint`), so the hint itself is not part of the state -/
+  | iterFL (r : FallibleIter)
+  | iterIL (r : InfallibleIter)
   | cbF (cb : Callback)
   | cbI (cb : Callback)
   deriving Repr, DecidableEq
@@ -606,6 +612,17 @@ def step : Backend → Op → M (Out × Backend)
   | iterI r, .exhS | iterI r, .exhQ => .ok (.bools (r.remaining == 0) true, iterI r)
   | iterI r, .raw => .ok (.dumpItems (if r.inner.done then [] else Fuse.pending r.inner.script), iterI r)
   | iterI r, _ => .ok (.unsupported, iterI r)
+  | iterFL r, .readS | iterFL r, .readQ =>
+    match (r.read).1 with
+    | .ok o => .ok (.word o, iterFL (r.read).2)
+    | .error _ => .ok (.readErr, iterFL (r.read).2)
+  | iterFL r, .exhS | iterFL r, .exhQ => .ok (.bool true, iterFL r)
+  | iterFL r, .raw => .ok (.dumpItems (if r.inner.done then [] else Fuse.pending r.inner.script), iterFL r)
+  | iterFL r, _ => .ok (.unsupported, iterFL r)
+  | iterIL r, .readS | iterIL r, .readQ => .ok (.item (r.read).1, iterIL (r.read).2)
+  | iterIL r, .exhS | iterIL r, .exhQ => .ok (.bool true, iterIL r)
+  | iterIL r, .raw => .ok (.dumpItems (if r.inner.done then [] else Fuse.pending r.inner.script), iterIL r)
+  | iterIL r, _ => .ok (.unsupported, iterIL r)
   | cbF cb, .write w =>
     if (cb.write w).1 then .ok (.ok, cbF (cb.write w).2) else .ok (.cbErr, cbF (cb.write w).2)
   | cbF cb, .extend ws => .ok ((cb.extend ws).1, cbF (cb.extend ws).2)
